@@ -89,7 +89,7 @@ def write_replay(prop, harness, kind, inputs, label):
 def run_replay(path, timeout=600):
     """replay against the unmodified real code in a fresh interpreter"""
     env = dict(os.environ)
-    env["PYTHONPATH"] = "/repo/src"
+    env["PYTHONPATH"] = os.environ.get("VERIF_REPO_SRC", "/repo/src")
     env.pop("VERIF_INSTRUMENT", None)
     py = os.path.join(ROOT, ".venv", "bin", "python")
     p = subprocess.run([py, os.path.join(ROOT, "symx", "replay.py"), path],
